@@ -31,7 +31,7 @@ CHECKS = {
              "tags) in every container context: every assignment of separators (one or two spaces, newline, newline + indent) to the gaps not "
              "adjacent to a tag is compared with the single-space layout (R1, only when Reader A reads both as the same document), and every "
              "ordered pair of (width, mode) option sets is run as first-then-second pass and compared with the direct formatting (R2); headings "
-             "and table cells with runs of spaces are covered by a separate space.",
+             "and table cells with runs of spaces are covered by a separate space, and so are the gaps INSIDE constructs (link text, reference labels in every reference form, emphasis, code spans: two spaces, a soft break, a soft break plus indent).",
         note="Trusted: Reader A for the meaning-preservation precondition. The newline-next-to-tag exception is implemented as: such gaps only vary between 1 and 2 spaces; histories whose first pass creates a tag-adjacent newline are skipped and counted.",
         ref="DESIGN.md §2 C03"),
     "C04": dict(
@@ -137,7 +137,7 @@ CHECKS = {
         technique="bounded-exhaustive enumeration of .gitignore configurations in a fixed tree; differential oracle against real git",
         text="In a fixed tree (files named a.md/b.md/c.md at the root, in sub, sub/deep, other, other/sub) the .gitignore files at the root, in sub "
              "and in sub/deep take every sequence of 1-2 lines over a 24-pattern alphabet (basename, anchored, multi-segment, directory-only, *, **, "
-             "?, negations, comment, escaped #, trailing space), alone, in pairs and in triples; for each configuration and for both walk roots "
+             "?, negations, comment, escaped #, trailing space), alone, in pairs and in triples; for each configuration and for both walk roots (single-file configurations also with the root spelled through \"..\", through a symlinked directory and relative to a cwd inside the tree) "
              "the listing of FileResolver must equal `git ls-files -co --exclude-standard` run in the same tree (ignore files above the walk root "
              "removed for git), and with respect_gitignore off it must equal the listing with no .gitignore at all. History space: every sequence of 2 "
              "(quick) / 3 (thorough) configurations written to one directory path within one process, a new FileResolver per step, each listing equal to git's.",
@@ -149,9 +149,9 @@ CHECKS = {
         text="On a universe tree (files around the size limit, other extensions, hidden files, default- and user-excluded directories, the same "
              "directory name at several places, links to files and directories inside and outside, a dangling link, a cycle; with and without "
              "the links) a .flowmarkignore is placed at 4 places with each of 8 rule sets; for each of 8 setting combinations every sequence of "
-             "up to 2 (quick) / 3 (thorough) arguments out of 14 (directories, explicit files incl. excluded / oversized / linked ones, globs) in "
+             "up to 2 (quick) / 3 (thorough) arguments out of 17 (directories incl. non-canonical spellings with \"..\" and a symlinked directory, explicit files incl. excluded / oversized / linked ones, globs) in "
              "every order and under two directory listing orders is resolved and must equal an independent reference walk written from the property "
-             "text (own gitignore matcher, validated against git): absolute, sorted, unique, independent of argument and listing order. History space: "
+             "text (own gitignore matcher, validated against git): absolute, sorted, unique, independent of argument and listing order; `flowmark --list-files` with the same settings and arguments (in-process) must print exactly that list. History space: "
              "every sequence of 2 (quick) / 3 (thorough) tree states on ONE directory path within one process (ignore file moved / rewritten, a file "
              "growing over the limit, a directory appearing), a new FileResolver per step, each listing equal to the reference for the tree at that moment.",
         note="Trusted: the reference walk and vf/ignore_ref.py (agrees with git on all 600 one- and two-line pattern sets of the C18 alphabet).",
@@ -174,7 +174,7 @@ CHECKS = {
         technique="explicit-state exploration of call histories (fresh process per sequence, state fingerprints) and stateless exploration of all thread schedules up to a preemption bound under a controlled scheduler",
         text="Histories: every sequence of up to 2 (quick) / 3 (thorough) calls over 88 actions (22 setter/observer documents for each mutable "
              "renderer, parser and wrapper field, incl. documents that START with the construct reading a field and documents sharing link targets, x 4 option sets) runs in a fresh forked process that never called flowmark; after every call the "
-             "output must equal the action's first-call-in-a-fresh-process baseline; process-wide mutable state is fingerprinted after every call. Same-document histories: 6 documents x every ordered pair (thorough: triple) of 10 option sets that differ in one dimension at one width (plaintext / fill / semantic, typography, list spacing), the collision a memo keyed on too little needs. "
+             "output must equal the action's first-call-in-a-fresh-process baseline; process-wide mutable state is fingerprinted after every call. Pumped histories: P^k ; O for 3 large pump documents, k in {1, 8, 64} (256 thorough) and 4 observers (anything that runs out, fills up or wraps around). Same-document histories: 6 documents x every ordered pair (thorough: triple) of 10 option sets that differ in one dimension at one width (plaintext / fill / semantic, typography, list spacing), the collision a memo keyed on too little needs. "
              "Schedules: two threads, one reformat_text call each, on 8 colliding document pairs (both sides use the same construct with different "
              "parameters) under a cooperative scheduler whose scheduling points are all call events into flowmark/marko code (600-1500 per call): ALL "
              "schedules with one preemption, and all schedules with two preemptions at flowmark-function granularity (first 4 pairs quick, all pairs thorough); every thread's result must equal its solo result; sampled schedules "
